@@ -11,7 +11,7 @@ from harness.steps import HUNDRED_Y, process_step
 
 def h06_step(S):
     """One completed iteration from an arbitrary valid state of a recurring message."""
-    o = process_step(S, policy_kind=1, explicit_retry=True, ttl=True)
+    o = process_step(S, policy_kind=1, explicit_retry=True, ttl=True, eager_reschedule=True)
     if not o.recurring:
         S.cover("not-recurring")
         return
